@@ -425,7 +425,9 @@ def int_clip(x, val_min, val_max):
 def wrap(x, signed, n_word):
 
     m = (1 << n_word)
-    if n_word >= _n_word_max:
+    x = np.asarray(x)
+    if n_word >= _n_word_max or x.dtype == object:
+        # Python integers: wide words, and values that do not fit in int64
         dtype = object
         x = int_array(x).astype(dtype) & (m - 1)
     else:
